@@ -85,12 +85,29 @@ def run(ctx):
         ctx.ob("C07.R2b", inst, ok and all(ig.dominated_by(w, pushes) for w in work), fn.loc,
                "workers must be joined only after the STOP markers were pushed")
         # STOP marker value and count
+        # the task type on which a worker leaves its loop (switch case or equality test, resolved constants)
         enum_stop = None
-        for f2 in fb.find(pred=lambda f: f.record == POOL and f.has_cfg()):
-            for b in f2.blocks.values():
-                for e in b.get("enum_all", []) or []:
-                    if e["name"] == "STOP":
-                        enum_stop = int(e["value"])
+        for f2 in fb.find(pred=lambda f: f.record == POOL and f.name == "keep_execute" and f.has_cfg()):
+            ig2 = IG(f2, inline=nin)
+            pops = [n for n in ig2.ev_nodes() if n.ev["e"] == "call" and n.ev.get("name") in ("pop", "try_pop")]
+            for nd in ig2.nodes:
+                for m, lab in nd.succ:
+                    if lab is None:
+                        continue
+                    val = None
+                    if lab.case not in (None, "default"):
+                        try:
+                            val = int(lab.case)
+                        except ValueError:
+                            val = None
+                    elif lab.cond is not None and lab.pol is not None:
+                        atom, pol = ig2.expand_cond(ig2.resolve(lab.cond, lab.frame), lab.pol)
+                        c = L.effective_cmp(atom, pol)
+                        if c is not None and c[0] == "==" and const_val(c[2]) is not None and \
+                                any(sd.get("k") == "f" and sd.get("n") == "type" for sd in walk(c[1])):
+                            val = const_val(c[2])
+                    if val is not None and ig2.exit.id in ig2.reach([m], removed=pops):
+                        enum_stop = val
         for p in pushes:
             a0 = strip_cast(ig.rarg(p, 0))
             tval = const_val(a0["xs"][0]) if isinstance(a0, dict) and a0.get("k") == "init" and a0.get("xs") else None
